@@ -257,6 +257,9 @@ def check(run, model, tier):
                                              'disk (imported from a zip archive, a zipapp, through a custom loader) it answers the empty string, `obj.attr += 1` is classified as a plain '
                                              'read, the lock is released between its read half and its write half and a concurrent update is lost' % norm(c_.func)),
                      node=c_, obligation=True)
+    from props.c28 import line_verbatim_rule
+    line_verbatim_rule(run, model, 'LOCKSET.line-verbatim', cls, get, gg, classifier,
+                       '`obj.attr += 1` on such a line is classified as a plain read, the lock is released between its read half and its write half and a concurrent update is lost')
     AUG = ['+=', '-=', '*=', '/=', '//=', '%=', '@=', '&=', '|=', '^=', '>>=', '<<=', '**=']
     re_obj = pureeval.Obj(search=_re.search, match=_re.match, fullmatch=_re.fullmatch, findall=_re.findall, compile=_re.compile)
     cmeths = {k_: f_.node for k_, f_ in cls.methods.items() if not (k_.startswith('__') and k_.endswith('__'))}
